@@ -3,7 +3,7 @@
    the correspondence run, not verified); schema conformance of all fields is an oracle. *)
 From Coq Require Import Lia Permutation Sorted.
 From RM Require Import Gen.C15Fmt.
-From RM Require Import C15.Model C15.Schema C15.Widths C15.Utf8 C15.Pretty C15.Proofs C15.Proofs2 C15.Proofs3 C15.Proofs4 C15.Proofs5 C15.Proofs6 C15.Proofs7 C15.Scalar C15.Proofs8 C15.Proofs9 C15.Regs C15.Proofs10 C15.Consistent C15.Proofs11 C15.Proofs12 C15.Proofs13 C15.Offsets C15.Proofs14.
+From RM Require Import C15.Model C15.Schema C15.Widths C15.Utf8 C15.Pretty C15.Proofs C15.Proofs2 C15.Proofs3 C15.Proofs4 C15.Proofs5 C15.Proofs6 C15.Proofs7 C15.Scalar C15.Proofs8 C15.Proofs9 C15.Regs C15.Proofs10 C15.Consistent C15.Proofs11 C15.Proofs12 C15.Proofs13 C15.Offsets C15.Proofs14 C15.KeyOrder C15.Proofs15.
 Open Scope Z_scope.
 
 (* Escaping is total and correct: every JSON value — arbitrary nesting, arbitrary integers,
@@ -609,6 +609,24 @@ Theorem c15_offsets_rejects :
 Proof. vm_compute. repeat split; reflexivity. Qed.
 Print Assumptions c15_offsets_rejects.
 
+(* MEMBER ORDER.  serde_json's Map is a BTreeMap, so every object of the real output lists its members in strictly increasing byte order of
+   the names (= code-point order; strict = no duplicate).  The model writes its objects in that order by hand — optional members of memory accesses,
+   `registers` inserted into frame 0 of the copy, `threads_index` appended, `crashing_thread` after `crash_info`.  For EVERY state (no well-formedness
+   needed) whose register names arrive sorted and whose soft_errors value has sorted objects ([keys_hyp], evaluated on every real state) every object
+   of the model's report is strictly sorted; the driver runs [keys_sorted] on every real output as well. *)
+Theorem c15_keys_sorted : forall p s j, keys_hyp s = true -> json_of_state p s = Ret j -> wf_state s = true -> keys_sorted j = true.
+Proof.
+  intros p s j Hk Hj Hw. rewrite (report_pure p s Hw) in Hj. inversion Hj; subst j. exact (report_keys_sorted s Hk).
+Qed.
+Print Assumptions c15_keys_sorted.
+
+Theorem c15_keys_sorted_rejects :
+  keys_sorted (JObj [([98], JNull); ([97], JNull)]) = false /\ keys_sorted (JObj [([97], JNull); ([97], JNull)]) = false /\
+  keys_sorted (JArr [JObj [([97], JObj [([97; 98], JNull); ([97], JNull)])]]) = false /\
+  keys_sorted (JObj [([65], JNull); ([97], JNull); ([97; 0], JNull); ([98], JArr [JObj []]); ([233], JNull); ([128512], JNull)]) = true.
+Proof. vm_compute. repeat split; reflexivity. Qed.
+Print Assumptions c15_keys_sorted_rejects.
+
 (* ---- non-vacuity ---- *)
 Example c15_nonvacuous_roundtrip :
   let v := JObj [([97; 34; 92; 10; 1; 128512], JArr [JNum (-42); JNum 0; JNull; JBool true; JStr [31; 127; 8]; JObj []; JArr []])] in
@@ -656,11 +674,11 @@ Definition ex_state : state :=
      s_handles := Some [ {| h_handle := Some 18446744073709551615; h_type := Some [70]; h_object := None |} ];
      s_soft := Some (JArr [JObj [([97; 100; 100; 114; 101; 115; 115], JStr [63]); ([110], JArr [JNum (-1); JNull])]; JObj []]) |}.
 Example c15_nonvacuous_state : state_ok ex_state /\ wf_state ex_state = true /\ state_scalar ex_state = true /\ regs_named_ok (s_registers ex_state) = true /\
-  exists j, json_of_state Debug ex_state = Ret j /\ parse (serialise j) = Some j /\ conforms DOC_SCHEMA j = true /\ consistent j = true /\ offsets_ok j = true /\ frames_in_modules ex_state = true /\
+  exists j, json_of_state Debug ex_state = Ret j /\ parse (serialise j) = Some j /\ conforms DOC_SCHEMA j = true /\ consistent j = true /\ offsets_ok j = true /\ frames_in_modules ex_state = true /\ keys_hyp ex_state = true /\ keys_sorted j = true /\
             jget k_thread_count j = Some (JNum 2) /\ (1400 < length (serialise j))%nat.
 Proof.
   assert (W : wf_state ex_state = true) by (vm_compute; reflexivity).
   split; [apply wf_state_ok; exact W|]. split; [exact W|]. split; [vm_compute; reflexivity|]. split; [reflexivity|].
-  eexists. split; [vm_compute; reflexivity|]. split; [apply serialise_parse|]. split; [vm_compute; reflexivity|]. split; [vm_compute; reflexivity|]. split; [vm_compute; reflexivity|]. split; [vm_compute; reflexivity|].
+  eexists. split; [vm_compute; reflexivity|]. split; [apply serialise_parse|]. split; [vm_compute; reflexivity|]. split; [vm_compute; reflexivity|]. split; [vm_compute; reflexivity|]. split; [vm_compute; reflexivity|]. split; [vm_compute; reflexivity|]. split; [vm_compute; reflexivity|].
   split; [reflexivity|vm_compute; lia].
 Qed.
